@@ -74,6 +74,8 @@ func VerifC44Calls() {
 	db.Create(&schema.Schema{Table: "lin", Columns: []string{"id", "a"},
 		Indexes: []schema.Index{vkey("id"),
 			{Mode: 'i', Columns: []string{"a"}, Fk: schema.Fkey{Table: "hdr", Columns: []string{"a"}, Mode: schema.Cascade}}}})
+	core.Global.Num("Trigger_hdr") // register the names first (TestDef indexes while Num appends)
+	core.Global.Num("Trigger_lin")
 	core.Global.TestDef("Trigger_hdr", vtrigger("hdr"))
 	core.Global.TestDef("Trigger_lin", vtrigger("lin"))
 	th := core.NewThread(nil)
